@@ -168,6 +168,10 @@ def binop(interp, op, a, b):
         if b.v > 64:
             return T('list*', interp.termify(a), b)
         return ListV(a.items * max(b.v, 0))
+    if sym == '*' and isinstance(a, ListV) and isinstance(b, T):
+        t = T('binop', '*', interp.termify(a), b)
+        interp.types[t] = 'list'
+        return t
     if sym == '%' and isinstance(a, K) and isinstance(a.v, (str, bytes)):
         pb = _const_py(b)
         if pb is not _NOCONST:
@@ -419,7 +423,8 @@ def slice_(interp, base, lo, hi, step):
         return bytes_slice(interp, base, lo, hi)
     t = T('slice', interp.termify(base), interp.termify(lo),
           interp.termify(hi), interp.termify(step))
-    if isinstance(base, T) and interp.types.get(base) in ('str', 'bytes'):
+    if isinstance(base, T) and interp.types.get(base) in ('str', 'bytes',
+                                                           'list'):
         interp.types[t] = interp.types[base]
     return t
 
